@@ -90,6 +90,20 @@ func (h *c20heap) obs() Ev {
 			for _, e := range v.AsArray() {
 				ids = append(ids, h.elemID(e))
 			}
+		} else if v.Type() == variants.Object {
+			switch x := v.AsObject().(type) {
+			case map[string]int:
+				payload = fmt.Sprintf("map#%d", x["id"])
+			case *c06obj:
+				payload = fmt.Sprintf("ptr#%d", x.a)
+			case struct {
+				Name string
+				Tags []string
+			}:
+				payload = "struct#" + x.Name[1:]
+			default:
+				payload = fmt.Sprintf("%T", x)
+			}
 		} else if v.Type() != variants.Null {
 			payload = v.String()
 		}
@@ -130,6 +144,10 @@ func execC20(seg []Ev) []Ev {
 			if x, ok := in[k]; ok {
 				e[k] = toStr(x)
 			}
+		}
+		if op == "setobject" {
+			e["kind"], e["inst"] = toStr(in["kind"]), toInt(in["inst"])
+			e["payload"] = fmt.Sprintf("%s#%d", toStr(in["kind"]), toInt(in["inst"]))
 		}
 		oc, det := guarded(func() {
 			switch op {
@@ -181,6 +199,31 @@ func execC20(seg []Ev) []Ev {
 				}
 			case "clear":
 				h.slots[toInt(in["v"])].Clear()
+			case "mutelem":
+				// change, in place, an element that the variant created itself while growing
+				v := h.slots[toInt(in["v"])]
+				if i := toInt(in["i"]); v.Type() == variants.Array && i < v.Length() {
+					if el := v.GetByIndex(i); el != nil {
+						if _, named := h.names[el]; !named {
+							el.SetAsInteger(7)
+						}
+					}
+				}
+			case "setobject":
+				inst := toInt(in["inst"])
+				var host any
+				switch toStr(in["kind"]) {
+				case "map":
+					host = map[string]int{"id": inst}
+				case "struct":
+					host = struct {
+						Name string
+						Tags []string
+					}{fmt.Sprintf("s%d", inst), []string{"x"}}
+				default:
+					host = &c06obj{inst}
+				}
+				h.slots[toInt(in["v"])].SetAsObject(host)
 			case "listset":
 				var els []string
 				for _, x := range toList(in["elems"]) {
@@ -344,7 +387,8 @@ func genC20(g *Gen) {
 	for _, how := range []string{"Clone", "Assign", "SetAsObject", "NewVariant"} {
 		ops = append(ops, Ev{"op": "copy", "w": 2, "v": 1, "how": how}, Ev{"op": "copy", "w": 1, "v": 2, "how": how})
 	}
-	ops = append(ops, Ev{"op": "listset", "list": "L1", "elems": []any{"e1", "e2"}}, Ev{"op": "listput", "list": "L1", "i": 0, "e": "e5"})
+	ops = append(ops, Ev{"op": "listset", "list": "L1", "elems": []any{"e1", "e2"}}, Ev{"op": "listput", "list": "L1", "i": 0, "e": "e5"},
+		Ev{"op": "mutelem", "v": 1, "i": 2}, Ev{"op": "mutelem", "v": 2, "i": 2})
 	depth := g.Pick(3, 4)
 	idx := make([]int, depth)
 	for {
@@ -376,7 +420,11 @@ func genC20(g *Gen) {
 		for k := 4 + r.Intn(26); k > 0; k-- {
 			v, w := 1+r.Intn(4), 1+r.Intn(4)
 			L := []string{"L1", "L2"}[r.Intn(2)]
-			switch r.Intn(9) {
+			switch r.Intn(11) {
+			case 9:
+				seg = append(seg, Ev{"op": "mutelem", "v": v, "i": r.Intn(6)})
+			case 10:
+				seg = append(seg, Ev{"op": "setobject", "v": v, "kind": []string{"map", "struct", "ptr"}[r.Intn(3)], "inst": 1 + r.Intn(3)})
 			case 0:
 				seg = append(seg, Ev{"op": "setscalar", "v": v, "type": []string{"Integer", "String"}[r.Intn(2)], "payload": fmt.Sprint(r.Intn(3))})
 			case 1, 2:
